@@ -16,7 +16,7 @@ META = dict(
               "shapes on <=3 atoms (element {C,O}, hcount 0..2, charge 0..1, order 1..2, all symbolic; 3-atom substrates with hcount 0..1 and charge 0); forward and "
               "invert=True; strategies all/comp/bt; implicit-hydrogen mode (implicit_temp=True, explicit_h=False); explicit-hydrogen "
               "mode (default flags) for two concrete templates with hydrogen atoms in the centre (keto-enol shift, MPV transfer "
-              "hydrogenation with two independent hydrogen migrations) on their skeleton with symbolic substituents and every numbering",
+              "hydrogenation with two independent hydrogen migrations, esterification as full-ITS template with a non-migrating explicit hydrogen) on their skeleton with symbolic substituents and every numbering",
         thorough="k=3 templates on substrates <=3 atoms, k=2 templates on substrates with 4 atoms",
     ),
     outside=["smarts_list / _to_smarts (RDKit) and everything said about output strings", "templates with wildcards, "
@@ -132,6 +132,11 @@ XH_FAMILIES = {
                 G=[(1, 2, 1), (1, 3, 1), (3, 4, 1), (5, 6, 2)], H=[(1, 3, 2), (5, 2, 1), (5, 6, 1), (6, 4, 1)],
                 # substrate skeleton: template heavy atoms + one substituent on each carbon
                 sub_bonds=[(1, 3, 1), (5, 6, 2), (1, 7, 1), (5, 8, 1)], sub_h={1: 1, 3: 1, 5: 0, 6: 0}),
+    # esterification written with a non-migrating explicit hydrogen (H5 stays on O4) next to the migrating one (H8): the
+    # full ITS is the template (H5's bond does not change, so it is not part of the centre)
+    "ester": dict(heavy={2: "C", 3: "O", 4: "O", 6: "C", 7: "O"}, hyd=[5, 8], full=True,
+                  G=[(2, 3, 2), (2, 4, 1), (4, 5, 1), (6, 7, 1), (7, 8, 1)], H=[(2, 3, 2), (2, 7, 1), (6, 7, 1), (4, 5, 1), (4, 8, 1)],
+                  sub_bonds=[(2, 3, 2), (2, 4, 1), (6, 7, 1), (2, 9, 1)], sub_h={2: 0, 3: 0, 4: 1, 6: 3, 7: 1}),
     "enol": dict(heavy={1: "C", 3: "C", 4: "O"}, hyd=[2],
                  G=[(1, 2, 1), (1, 3, 1), (3, 4, 2)], H=[(1, 3, 2), (3, 4, 1), (4, 2, 1)],
                  sub_bonds=[(1, 3, 1), (3, 4, 2), (3, 7, 1)], sub_h={1: 1, 3: 0, 4: 0}),
@@ -176,7 +181,7 @@ def h_explicit(E, family):
     for u, v, o in fam["H"]:
         Ht.add_edge(u, v, order=o)
     tmpl_its = ITSConstruction.ITSGraph(Gt, Ht)
-    rc = get_rc(tmpl_its)
+    rc = tmpl_its if fam.get("full") else get_rc(tmpl_its)
     # substrate: the template's heavy skeleton with implicit hydrogens, substituents with symbolic labels, and a
     # solver-chosen numbering / insertion order (how the SMILES happens to be written)
     heavy = sorted(fam["heavy"])
@@ -190,7 +195,7 @@ def h_explicit(E, family):
     lab = {}
     for v in allv:
         if v in fam["heavy"]:
-            el, h = fam["heavy"][v], fam["sub_h"][v] + (E.int("xh%d" % v, 0, 1) if fam["heavy"][v] == "C" else 0)
+            el, h = fam["heavy"][v], fam["sub_h"][v] + (E.int("xh%d" % v, 0, 1) if fam["heavy"][v] == "C" and fam["sub_h"][v] < 3 else 0)
         else:
             el, h = E.choice("sel%d" % v, ["C", "O"]), E.int("sh%d" % v, 0, 1)
         lab[v] = (el, h)
@@ -245,6 +250,7 @@ def shards(tier, seed):
                                                          lite=(tier == "quick" and hn == 3))))
     sh.append(dict(h="explicit", params=dict(family="enol")))
     sh.append(dict(h="explicit", params=dict(family="MPV")))
+    sh.append(dict(h="explicit", params=dict(family="ester")))
     if tier == "thorough":
         for hn, he in hosts:
             if hn == 3:
